@@ -7,6 +7,9 @@ import hashlib, os, subprocess, sys, fcntl, shutil, time
 REPO = os.environ.get("VERIF_REPO", "/repo")
 VERIF = os.path.dirname(os.path.dirname(os.path.abspath(__file__)))
 BUILD = os.path.join(VERIF, "build")
+if os.path.realpath(REPO) != "/repo":
+    # scratch copies of the repository (mutation experiments) get their own cache directory
+    BUILD = os.path.join(BUILD, "alt-" + hashlib.sha256(os.path.realpath(REPO).encode()).hexdigest()[:10])
 SHIM_DIR = os.path.join(VERIF, "mc", "shim")
 
 MODULES = ["ECDH", "RECOVERY", "EXTRAKEYS", "SCHNORRSIG", "MUSIG", "ELLSWIFT", "GENERATOR",
